@@ -20,6 +20,8 @@ from numpy.typing import NDArray
 
 from nucs.constants import (
     LOG_LEVEL_INFO,
+    MAX,
+    MIN,
     NUMBA_DISABLE_JIT,
     PROBLEM_BOUND,
     PROBLEM_UNBOUND,
@@ -231,6 +233,9 @@ class BacktrackSolver(Solver):
                 variable_idx,
                 best_solution[variable_idx],
             )
+            dom_idx = self.problem.dom_indices_arr[variable_idx]
+            if self.shr_domains_stack[0, dom_idx, MIN] > self.shr_domains_stack[0, dom_idx, MAX]:
+                break  # the objective cannot be improved
         return best_solution
 
     def solve(self) -> Iterator[NDArray]:
@@ -366,6 +371,9 @@ class BacktrackSolver(Solver):
                 variable_idx,
                 solution[variable_idx],
             )
+            dom_idx = self.problem.dom_indices_arr[variable_idx]
+            if self.shr_domains_stack[0, dom_idx, MIN] > self.shr_domains_stack[0, dom_idx, MAX]:
+                break  # the objective cannot be improved
         solution_queue.put((processor_idx, None, self.statistics))
 
     def solve_and_queue(self, processor_idx: int, solution_queue: Queue) -> None:
